@@ -109,6 +109,7 @@ def index_derived(fn, pv, operand, depth=0, seen=None):
 def run(ck, tier):
     ck.rule("R-C14-locfree", "typegraph: no field that feeds the Hash of LintContext is position-carrying (type Span, or an integer field that some workspace function assigns from a token-index source)")
     ck.rule("R-C14-agree", "ignore_lint and is_ignored obtain the hash from the same function with the same argument roles; remove_ignored retains exactly !is_ignored; LintContext::from_lint takes kind/suggestions/message/priority from the lint")
+    ck.rule("R-C14-stable", "the ignore hash means the same in every process and every IgnoredLints instance: hash_lint_context feeds a hasher with fixed keys (std DefaultHasher / SipHasher built with default()/new(), a FixedState or BuildHasherDefault), never a per-instance or per-process seeded one (RandomState, a container's own .hasher())")
     ck.rule("R-C14-context", "the ignore context hashes the TokenKind of neighbouring tokens, so a word's kind must be a function of its own characters: in Document::parse the dictionary lookup `*meta = dictionary.get_word_metadata(own span)` is the last writer of token kinds - no pass that runs after it rewrites a kind, unless it only touches the element it iterates over")
     ck.rule("R-C14-serde", "IgnoredLints derives Serialize+Deserialize without asymmetric attributes; wasm export/import use serde_json to_string/from_str on that type and import appends")
     ck.not_decided += ["hash collisions", "the exact 2-character neighbourhood arithmetic of LintContext::from_lint"]
@@ -199,6 +200,7 @@ def run(ck, tier):
     ck.floor("R-C14-serde", "ADTs in IgnoredLints serde graph", n, 1)
     _wasm_io(ck, p)
     _context(ck, p)
+    _stable(ck, p)
 
 
 def _writes_kind(p, fn, memo, depth=0):
@@ -422,3 +424,25 @@ def _wasm_io(ck, p):
         has_from = any(n == "serde_json::de::from_str" for n in names)
         has_append = any(n.endswith("IgnoredLints::append") or n.endswith("ignored_lints::{impl#0}::append") for n in names)
         ck.decide(rule, "wasm:import_ignored_lints", has_from and has_append, f.span, "from_str=%s, append(union)=%s" % (has_from, has_append))
+
+
+def _stable(ck, p):
+    rule = "R-C14-stable"
+    byk = fns_by_key(p)
+    fs = byk.get("IgnoredLints::hash_lint_context")
+    if not ck.anchor(rule, "IgnoredLints::hash_lint_context", fs):
+        return
+    f = fs[0]
+    ck.saw(f)
+    tys = {f.local_tystr(i) for i in range(len(f.d["locals"]))}
+    hashers = sorted(t.lstrip("&").replace("mut ", "").strip() for t in tys if re.search(r"Hasher|RandomState|FixedState|BuildHasher|HashBuilder", t))
+    seeded = [t for t in hashers if re.search(r"RandomState|DefaultHashBuilder|ahash::", t)]
+    fixed = [t for t in hashers if re.search(r"std::hash::DefaultHasher$|SipHasher|FixedState|BuildHasherDefault", t)]
+    from ..common import method as _m
+    via_container = [t["ln"] for bi, t in f.calls() if _m(t) == "hasher"]
+    if seeded or via_container:
+        ck.refuted(rule, "IgnoredLints::hash_lint_context", f.span, "the context hash is computed with a seeded hasher (%s%s): the stored numbers only mean something to the instance (or process) that produced them, so an exported ignore list imported elsewhere matches nothing and every ignored lint comes back" % (", ".join(seeded) or "?", "; obtained from a container's .hasher()" if via_container else ""))
+    elif fixed:
+        ck.proved(rule, "IgnoredLints::hash_lint_context", f.span, "hasher types in the function: %s (fixed keys)" % fixed)
+    else:
+        ck.undecided(rule, "IgnoredLints::hash_lint_context", f.span, "no hasher type recognised among %s" % hashers)
